@@ -306,6 +306,25 @@ def r6_groups(ctx):
         ok = ok and good
         det.append(show_condition(pc))
     ctx.ob("R6", f, "only requested groups are handed to the check function", ok, "; ".join(det) or "no store into output")
+    # the grouping itself keeps every group of the grouping columns (unobserved categories, null keys as pandas defines)
+    gb = cls.method("groupby")
+    if gb is None:
+        raise AnalysisError("PandasCheckBackend.groupby missing")
+    for c in calls_in(gb.node):
+        if callee_last(c) != "groupby" or not isinstance(c.func, ast.Attribute):
+            continue
+        dropping = []
+        for k in c.keywords:
+            if k.arg == "observed" and not (isinstance(k.value, ast.Constant) and k.value.value is False):
+                dropping.append("observed=" + txt(k.value))
+            if k.arg == "dropna" and not (isinstance(k.value, ast.Constant) and k.value.value is True):
+                dropping.append("dropna=" + txt(k.value))
+            if k.arg in ("level", "axis"):
+                dropping.append(f"{k.arg}={txt(k.value)}")
+        ctx.ob("R6", gb, f"`{txt(c)[:60]}` forms the groups with pandas' defaults", not dropping,
+               "no option that removes or adds groups" if not dropping else
+               f"{dropping} changes which groups exist (observed=True drops the empty groups of unobserved categories): the check function no "
+               "longer receives exactly the groups of the grouping columns, and `groups=[...]` naming such a group raises", gb.loc(c))
     raises = [s for s in function_stmts(f) if isinstance(s, ast.Raise)]
     ok = any("KeyError" in txt(s) for s in raises)
     ctx.ob("R6", f, "unknown group names raise KeyError", ok, "raise KeyError(invalid groups)" if ok else "invalid groups are silently ignored")
